@@ -30,6 +30,9 @@ verbatim except for the rewrites R1..R8 below, every application of which is rep
       `continue` that targets this loop  (Verus: for-loops do not support `continue`)
   R4  `Box<[T]>` in struct fields -> `Vec<T>`
   R8  `for x in E.iter_mut() {B}` -> index loop over E with `*x` replaced by `E[__k]`
+  R10 `let it = E.iter().skip(S);` ... `for x in it.take(T) {B}` -> index loop visiting E[S], E[S+1], ... while in range,
+      at most T elements (std slice-iterator semantics, assumed)
+  R11 `E.filter(|_| c)` (Option, c a boolean variable) -> `match (E, c) { (v, true) => v, (_, false) => None }`
 Anything else Verus cannot parse is reported by Verus itself and makes the unit *undecided* (exit 2).
 """
 import os
@@ -278,6 +281,61 @@ def rewrite_for_loops(body, notes):
         body = body[:m.start()] + new + body[e + 1:]
 
 
+def rewrite_skip_take(body, notes):
+    """R10: `let NAME = E.iter().skip(S);` ... `for VAR in NAME.take(T) {B}`  ->  index loop over E that visits the
+    elements S, S+1, ... while in range, at most T of them (the std semantics of slice::iter().skip(S).take(T))."""
+    m = find_code(body, r"let\s+(\w+)\s*=\s*([\w.]+)\s*\.iter\(\)\s*\.skip\(")
+    if not m:
+        return body
+    name, coll = m.group(1), m.group(2)
+    # skip argument: up to the matching ')' followed by ';'
+    j = m.end()
+    depth = 1
+    while j < len(body) and depth:
+        if body[j] == "(":
+            depth += 1
+        elif body[j] == ")":
+            depth -= 1
+        j += 1
+    skip_expr = body[m.end():j - 1].strip()
+    semi = body.find(";", j)
+    if semi < 0 or body[j:semi].strip():
+        raise ExtractError("unsupported construct: iterator chain after skip()")
+    body = body[:m.start()] + "let __%s_skip: usize = %s;" % (name, skip_expr) + body[semi + 1:]
+    f = find_code(body, r"\bfor\s+(\w+)\s+in\s+%s\s*\.take\(" % re.escape(name))
+    if not f:
+        raise ExtractError("lost anchor: `for .. in %s.take(..)`" % name)
+    var = f.group(1)
+    o = _body_open(body, f.end() - 1)      # scan from the `(` of take(
+    take_expr = body[f.end():o].strip()
+    if not take_expr.endswith(")"):
+        raise ExtractError("unsupported construct: take() argument")
+    take_expr = take_expr[:-1].strip()
+    e = match_brace(body, o)
+    inner = body[o + 1:e]
+    if _continues_targeting(inner):
+        raise ExtractError("unsupported construct: continue inside skip/take loop")
+    ls = body.rfind("\n", 0, f.start()) + 1
+    indent = re.match(r"[ \t]*", body[ls:]).group(0)
+    new = ("let mut __%(n)s_k: usize = __%(n)s_skip;\n%(i)slet __%(n)s_take: usize = %(t)s;\n%(i)slet mut __%(n)s_c: usize = 0;\n"
+           "%(i)swhile __%(n)s_c < __%(n)s_take && __%(n)s_k < %(c)s.len() {\n%(i)s    let %(v)s = &%(c)s[__%(n)s_k];%(b)s\n"
+           "%(i)s    __%(n)s_k += 1;\n%(i)s    __%(n)s_c += 1;\n%(i)s}") % dict(n=name, i=indent, t=take_expr, c=coll, v=var, b=inner.rstrip())
+    notes.append("R10: `let %s = %s.iter().skip(%s)` + `for %s in %s.take(%s)` -> index loop (std slice-iterator semantics assumed)" % (
+        name, coll, skip_expr, var, name, take_expr))
+    return body[:f.start()] + new + body[e + 1:]
+
+
+def rewrite_option_filter(body, notes):
+    """R11: `E.filter(|_| c)` with a plain boolean variable c  ->  `{ let __r = E; if c { __r } else { None } }`"""
+    rx = re.compile(r"([\w.]+\(\))\s*\.filter\(\|_\|\s*(\w+)\)")
+    ms = [m for m in rx.finditer(body)]
+    for m in reversed(ms):
+        # E is evaluated first (it has side effects), then the flag decides whether its value is kept
+        body = body[:m.start()] + "match (%s, %s) { (v, true) => v, (_, false) => None }" % (m.group(1), m.group(2)) + body[m.end():]
+        notes.append("R11: `%s.filter(|_| %s)` -> `match (%s, %s) { (v, true) => v, (_, false) => None }`" % (m.group(1), m.group(2), m.group(1), m.group(2)))
+    return body
+
+
 def rewrite_hints(body, notes):
     n = 0
     for kw in ("likely", "unlikely"):
@@ -355,6 +413,8 @@ def extract_fn(kv, payload, notes, falsify=None):
     body = rewrite_hints(body, notes)
     secs = _sections(payload)
     # statement anchors and loop anchors are resolved on the rewritten body
+    body = rewrite_skip_take(body, notes)
+    body = rewrite_option_filter(body, notes)
     body = rewrite_for_loops(body, notes)
     inserts = []  # (offset, text)
     spec = ""
